@@ -55,3 +55,99 @@ pub fn seek_file(ch: u8, bps: u32, variant: &str, declared: bool, nfull: usize, 
     let frames = st.frames.iter().map(|f| (f.offset - fstart + first_frame, f.len, f.first_sample, f.block_size)).collect();
     TestFile { desc: format!("ch{ch}-bps{bps}-{variant}-{}-{}x16+{}", if declared { "declared" } else { "unknown" }, nfull, tail), bytes, pcm, sig, total_known: declared, frames, first_frame }
 }
+
+// ---------------------------------------------------------------------------------------------
+// Damage corpus (C04/C05): small files from the crate's encoder and from the grammar builder
+
+use vph::fgen::{self, Assign, PartParam, SubKind};
+
+pub fn from_bytes(desc: String, bytes: Vec<u8>, total_known: bool) -> TestFile {
+    let st = refdec::decode(&bytes).unwrap_or_else(|r| panic!("corpus file {desc} rejected by refdec: {} {}", r.code, r.msg));
+    let (_, viol) = refdec::validate(&bytes);
+    if let Some(v) = viol.iter().find(|v| v.contains("zero-first-partition") || v.contains("reject:")) {
+        panic!("corpus file {desc} is not a valid stream: {v}");
+    }
+    TestFile {
+        desc,
+        pcm: st.pcm.clone(),
+        sig: Sig { rate: st.info.rate, bps: st.info.bps as u32, ch: st.info.channels },
+        total_known,
+        frames: st.frames.iter().map(|f| (f.offset, f.len, f.first_sample, f.block_size)).collect(),
+        first_frame: st.first_frame_offset,
+        bytes,
+    }
+}
+
+/// strip the declared total from a finished file (same size, audio untouched)
+pub fn unknown_total(bytes: &[u8]) -> Vec<u8> {
+    let mut blocks = BlockList::read(bytes).expect("blocklist");
+    let mut old = Vec::new();
+    write_blocks(&mut old, blocks.blocks()).unwrap();
+    blocks.streaminfo_mut().total_samples = None;
+    let mut out = Vec::new();
+    write_blocks(&mut out, blocks.blocks()).unwrap();
+    out.extend_from_slice(&bytes[old.len()..]);
+    out
+}
+
+pub fn damage_corpus(quick: bool) -> Vec<TestFile> {
+    let mut v = Vec::new();
+    // crate-encoded
+    let enc: &[(u8, u32)] = if quick { &[(1, 16), (2, 16), (2, 24)] } else { &[(1, 16), (2, 16), (1, 8), (2, 24), (3, 16), (1, 32), (8, 8)] };
+    for &(ch, bps) in enc {
+        for (si, seek) in [Seek::Off, Seek::Frames(1)].into_iter().enumerate() {
+            let sig = Sig { rate: 44100, bps, ch };
+            let frames = 16 * 2 + 5;
+            // smooth + noisy halves so that several subframe types appear
+            let pcm: Vec<i32> = (0..frames * ch as usize).map(|k| { let (i, c) = (k / ch as usize, k % ch as usize); let mx = ((1i64 << (bps - 1)) - 1) as f64; (((i as f64 * 0.4 + c as f64).sin() * mx * 0.5) as i64 + if i >= 16 { ((k as i64 * 7919) % 31) - 15 } else { 0 }) as i32 }).collect();
+            let opt = Opt { seek, pad: Pad::Size(6), ..Opt::base16() };
+            let bytes = encode(WriterKind::Sample, &opt, &sig, &pcm).expect("corpus encode");
+            if si == 0 {
+                v.push(from_bytes(format!("enc-ch{ch}-bps{bps}-unknown-total"), unknown_total(&bytes), false));
+            }
+            v.push(from_bytes(format!("enc-ch{ch}-bps{bps}-seek{si}"), bytes, true));
+        }
+    }
+    // grammar-built: every subframe kind, stereo mode, residual coding
+    let mut push = |desc: String, spec: fgen::StreamSpec| {
+        let known = spec.total == fgen::TotalSpec::Exact;
+        let b = fgen::build(&spec).unwrap_or_else(|e| panic!("corpus spec {desc}: {e}"));
+        v.push(from_bytes(desc, b.bytes, known));
+    };
+    let kinds: Vec<(&str, SubKind)> = vec![("verbatim", SubKind::Verbatim), ("fixed0", SubKind::Fixed(0)), ("fixed2", SubKind::Fixed(2)), ("fixed4", SubKind::Fixed(4)), ("lpc2", crate::gspace::kind_of(8)), ("lpc8", crate::gspace::kind_of(9))];
+    for (name, kind) in kinds.iter().take(if quick { 3 } else { 6 }) {
+        let mk = |base: usize, n: usize| {
+            let mut f = fgen::plain_frame(vec![crate::gspace::target(0, 16, 0, n, base, 0)]);
+            f.subframes[0].kind = kind.clone();
+            f.subframes[0].res.order = if n >= 16 && !matches!(kind, SubKind::Lpc { order: 8.., .. }) { 1 } else { 0 };
+            f
+        };
+        push(format!("gen-mono16-{name}"), fgen::plain_stream(1, 16, 44100, vec![mk(0, 16), mk(16, 16), mk(32, 10)]));
+    }
+    {
+        let mut f = fgen::plain_frame(vec![vec![1234; 16]]);
+        f.subframes[0].kind = SubKind::Constant;
+        let mut g = fgen::plain_frame(vec![crate::gspace::target(0, 16, 0, 16, 16, 2)]);
+        g.subframes[0].wasted = 2;
+        g.subframes[0].kind = SubKind::Fixed(1);
+        g.subframes[0].res.method = 1;
+        g.subframes[0].res.params = vec![PartParam::Escape(None)];
+        let mut st = fgen::plain_stream(1, 16, 44100, vec![f, g]);
+        st.variable = true;
+        push("gen-mono16-constant+wasted-escape-variable".into(), st);
+    }
+    for (name, a) in [("leftside", Assign::LeftSide), ("sideright", Assign::SideRight), ("midside", Assign::MidSide)].into_iter().take(if quick { 1 } else { 3 }) {
+        let mk = |base: usize, n: usize| {
+            let mut f = fgen::plain_frame((0..2).map(|c| crate::gspace::target(0, 24, c, n, base, 0)).collect());
+            f.assign = a.clone();
+            for s in f.subframes.iter_mut() {
+                s.kind = SubKind::Fixed(1);
+            }
+            f
+        };
+        let mut st = fgen::plain_stream(2, 24, 96000, vec![mk(0, 16), mk(16, 9)]);
+        st.total = fgen::TotalSpec::Unknown;
+        push(format!("gen-stereo24-{name}-unknown-total"), st);
+    }
+    v
+}
